@@ -2245,20 +2245,13 @@ let rec ctc_features_acc n0 acc =
   then (match d with
         | DStr s -> if starts_with_char '\'' s then acc else add_once s acc
         | _ -> acc)
-  else if is_unary_op n0
-       then (match l with
-             | Some a -> ctc_features_acc a acc
-             | None -> acc)
-       else if is_binary_op n0
-            then let acc1 =
-                   match l with
-                   | Some a -> ctc_features_acc a acc
-                   | None -> acc
-                 in
-                 (match r with
-                  | Some b -> ctc_features_acc b acc1
-                  | None -> acc1)
-            else acc
+  else let acc1 = match l with
+                  | Some a -> ctc_features_acc a acc
+                  | None -> acc
+       in
+       (match r with
+        | Some b -> ctc_features_acc b acc1
+        | None -> acc1)
 
 (** val ctc_features : node -> char list list **)
 
@@ -7192,7 +7185,8 @@ let afm_item r =
        then Some (ISingle (false, (name c)))
        else if (&&) (Z.eqb (r_min r) Z0) (Z.eqb (r_max r) (Zpos XH))
             then Some (ISingle (true, (name c)))
-            else None
+            else Some (IGroup ((z_to_string (r_min r)),
+                   (z_to_string (r_max r)), ((name c) :: [])))
      | f :: l0 ->
        Some (IGroup ((z_to_string (r_min r)), (z_to_string (r_max r)),
          (map name (c :: (f :: l0))))))
